@@ -181,8 +181,39 @@ def validate_multiset(machine, rec):
         what = ("user %s on %s" % (d["kind"], "the problem" if owner == "pep" else
                                     ("a leaf function" if machine.regs[owner].get_is_leaf() else "a composite function")))
         take(d["obj"], n, what, d.get("sense"))
-    # an LMI is what was written when it was declared, whatever the caller does with its own array afterwards
+    # a declared comparison  lhs REL rhs  is the constraint  lhs - rhs <= 0 / rhs - lhs <= 0 / lhs - rhs = 0  as WRITTEN
     idx2 = canon.Index()
+    for d in machine.declared:
+        op = d.get("op") or {}
+        if d["kind"] != "constraint" or "lhs" not in op:
+            continue
+        try:
+            lhs = machine.regs[op["lhs"]]
+            rhs = machine.regs[op["rhs"]] if isinstance(op["rhs"], str) else op["rhs"]
+            sc_ = op.get("scale") or 1.0
+            A1, a1, c1 = canon.expr_num(lhs, idx2)
+            if isinstance(rhs, (int, float)):
+                A2, a2, c2 = 0 * A1, 0 * a1, float(rhs)
+            else:
+                A2, a2, c2 = canon.expr_num(rhs, idx2)
+            sign = -1.0 if op["rel"] in (">=", ">", "r>") else 1.0     # r< is  rhs > lhs, r> is  rhs < lhs
+            if op["rel"] == "r>":
+                sign = -1.0
+            if op["rel"] == "r<":
+                sign = 1.0
+            wA, wa, wc = sign * sc_ * (A1 - A2), sign * sc_ * (a1 - a2), sign * sc_ * (c1 - c2)
+            gA, ga, gc = canon.expr_num(d["obj"].expression, idx2)
+            mg = 1.0 + abs(sc_) * (float(np.max(np.abs(A1), initial=0.0)) + float(np.max(np.abs(A2), initial=0.0)) +
+                                   float(np.max(np.abs(a1), initial=0.0)) + float(np.max(np.abs(a2), initial=0.0)) + abs(c1) + abs(c2))
+            for sg in ((1.0, -1.0) if op["rel"] == "==" else (1.0,)):
+                dd = max(float(np.max(np.abs(gA - sg * wA), initial=0.0)), float(np.max(np.abs(ga - sg * wa), initial=0.0)), abs(gc - sg * wc))
+                if dd <= 1e-12 * mg:
+                    break
+            else:
+                F("declared_comparison_built_wrong:%s" % op["rel"].replace("r", "reflected "),
+                  "the constraint object built for a declared '%s' does not denote it (differs by %.3e)" % (op["rel"], dd))
+        except (KeyError, canon.CanonError):
+            continue
     info_lmis_decl = [0]
     for d in machine.declared:
         if d["kind"] == "lmi" and d.get("rows_decl") is not None:
